@@ -331,7 +331,7 @@ def real_interpreter(task):
     w = CropWorld(B, d)
     w.grow_have(have)
     missing = [i for i in range(1, B + 1) if i not in have]
-    env = dict(os.environ, PYTHONPATH="/repo", HOME=d)
+    env = dict(os.environ, PYTHONPATH=core.REPO, HOME=d)
     env.pop("CONDA_DEFAULT_ENV", None)
     logf = os.path.join(d, "calls.log")
     env["XV_CALLLOG"] = logf
